@@ -158,9 +158,30 @@ class Check(Property):
         dim = tuple(sorted(P.proj.dimensionality({base: Fraction(1)}).items()))
         return dim, Fraction(j["m"]) * f + off, f
 
+    def fixed_probes(self):
+        """quantities of different dimensionality are unequal also when an active context could convert one into the other"""
+        v = []
+        u = regs.fresh("float")
+        for ctx, a, b in (("sp", (299792458.0, "meter"), (1.0, "hertz")), ("sp", (500.0, "nanometer"), (599.584916, "terahertz")),
+                          ("boltzmann", (1.0, "kelvin"), (1.380649e-23, "joule"))):
+            qa, qb = u.Quantity(*a), u.Quantity(*b)
+            with u.context(ctx):
+                try:
+                    e1, e2 = bool(qa == qb), bool(qb == qa)
+                except Exception as exc:  # noqa: BLE001
+                    v.append(f"C05 inside the context {ctx!r}: {qa!r} == {qb!r} raised {type(exc).__name__}")
+                    continue
+            if e1 or e2:
+                v.append(f"C05 inside the active context {ctx!r}: {qa!r} == {qb!r} is {e1} / {e2} although the dimensionalities differ "
+                         f"(ordering them raises DimensionalityError, the hashes differ)")
+        return v
+
     def oracle(self, c):
         import operator
         v = []
+        if not getattr(self, "_fixed_done", False):
+            self._fixed_done = True
+            v += self.fixed_probes()
         if "u" not in c["b"]:
             return self.oracle_number(c)
         if len(c["a"]["u"]) != 1 or len(c["b"]["u"]) != 1:
